@@ -134,8 +134,10 @@ def known_crash(date_iso, exc):
     2017-01-01..2017-06-30: `_ges_rente_zahlbetrag_ohne_deckel_m` (active from 2017-01-01) reads
     ges_rente['abzugsrate_hinzuverdienst'] whose first entry is dated 2017-07-01.  Checks other than
     C08 count such simulations as skipped (they cannot observe their property on a run that does not
-    finish) and report the number; C08 itself reports the finding.
+    finish) and report the number; C08 itself reports the finding (one signature per change-date class).
     """
-    if isinstance(exc, KeyError) and "abzugsrate_hinzuverdienst" in str(exc) and "2017-01-01" <= str(date_iso) <= "2017-06-30":
-        return "missing-parameter:ges_rente.abzugsrate_hinzuverdienst:2017-01-01..2017-06-30"
+    ds = str(date_iso)
+    if isinstance(exc, KeyError) and "abzugsrate_hinzuverdienst" in str(exc) and "2017-01-01" <= ds <= "2017-06-30":
+        cls = "2017-01-01" if ds < "2017-04-01" else "2017-04-01"
+        return f"missing-parameter:ges_rente.abzugsrate_hinzuverdienst:class-{cls}"
     return None
